@@ -449,6 +449,14 @@ func (i *Lifecycler) ClaimTokensFor(ctx context.Context, ingesterID string) erro
 				return nil, false, fmt.Errorf("cannot claim tokens in an empty ring")
 			}
 
+			if _, exists := ringDesc.Ingesters[i.ID]; !exists {
+				// The instance is missing in the ring (e.g. the ring backend storage has been reset): register it
+				// again, as the heartbeat does, instead of publishing an entry made of the claimed tokens only.
+				i.setRegisteredAt(time.Now())
+				ro, rots := i.GetReadOnlyState()
+				ringDesc.AddIngester(i.ID, i.Addr, i.Zone, nil, i.GetState(), i.getRegisteredAt(), ro, rots, nil)
+			}
+
 			tokens = ringDesc.ClaimTokens(ingesterID, i.ID)
 			// update timestamp to give gossiping client a chance register ring change.
 			ing := ringDesc.Ingesters[i.ID]
